@@ -49,38 +49,6 @@ var c16Events = []string{"sm-save-enter", "sm-save-exit", "sm-recover-enter", "s
 	"logdb-snapshot-record-after", "chunk", "sys-snapshot-created", "sys-snapshot-received", "sys-snapshot-recovered",
 	"sys-snapshot-compacted", "sys-log-compacted"}
 
-type trigger struct {
-	event string
-	host  string
-	k     int32
-	count int32
-	fired int32
-	c     *Cluster
-	ch    chan struct{}
-}
-
-// fire is called from hooks inside the running system. When the trigger matches
-// it cuts the power of the victim: from now on nothing is synced, nothing is sent.
-func (tr *trigger) fire(event string, host string) {
-	if tr == nil || event != tr.event || host != tr.host || atomic.LoadInt32(&tr.fired) == 1 {
-		return
-	}
-	if atomic.AddInt32(&tr.count, 1) != tr.k {
-		return
-	}
-	if !atomic.CompareAndSwapInt32(&tr.fired, 0, 1) {
-		return
-	}
-	for _, h := range tr.c.Hosts {
-		if h.Addr == tr.host {
-			tr.c.Net.SetDead(h.Addr, true)
-			h.Mon.Freeze(true)
-			h.FS.SetIgnoreSyncs(true)
-		}
-	}
-	close(tr.ch)
-}
-
 type sysListener struct {
 	host string
 	tr   *trigger
